@@ -229,7 +229,7 @@ Definition marks0 : marks := mkMarks (repeat flags0 (length (g_meshes g))) [] []
 
 Definition mark_current_barriers (zero : list bool) : marks :=
   let '(fl1, inv1) := fold_left visit1 (barrier_visits zero false) (repeat flags0 (length (g_meshes g)), []) in
-  let fl2 := fold_left visit2 (barrier_visits zero true) fl1 in
+  let fl2 := fold_left visit2 (barrier_visits zero false) fl1 in
   let inv2 := dedup (filter (fun v => negb (shared_with_live fl2 v)) inv1) in
   mkMarks fl2 inv2 (comp_all (S (length (g_meshes g))) (seq 0 (length (g_meshes g))) [] fl2).
 
